@@ -208,6 +208,12 @@ func pointerShapes() []shape {
 		{id: "blob-2cycle", loop: true, blob: func(a *asm, n, b, t int) { a.ptr(n) }, name: func(a *asm, n, b, t int) { a.ptr(b) }},
 		{id: "blob-3cycle", loop: true, blob: func(a *asm, n, b, t int) { a.ptr(n); a.ptr(b) }, name: func(a *asm, n, b, t int) { a.ptr(b + 2) }},
 		{id: "label-2cycle", loop: true, blob: func(a *asm, n, b, t int) { a.raw([]byte{1, 'a'}); a.ptr(n) }, name: func(a *asm, n, b, t int) { a.raw([]byte{1, 'b'}); a.ptr(b) }},
+		// pointer-only cycles that live entirely in earlier, opaque bytes and are entered through one more pointer: a decoder that
+		// bounds pointers by the start of the name being decoded (instead of by the pointer being followed) never leaves them
+		{id: "blob-self-ptr", loop: true, blob: func(a *asm, n, b, t int) { a.ptr(b) }, name: func(a *asm, n, b, t int) { a.ptr(b) }},
+		{id: "blob-ptr-2cycle", loop: true, blob: func(a *asm, n, b, t int) { a.ptr(b + 2); a.ptr(b) }, name: func(a *asm, n, b, t int) { a.ptr(b) }},
+		{id: "blob-fwd-then-self", loop: true, blob: func(a *asm, n, b, t int) { a.ptr(b + 2); a.ptr(b + 2) }, name: func(a *asm, n, b, t int) { a.ptr(b) }},
+		{id: "blob-ptr-3cycle", loop: true, blob: func(a *asm, n, b, t int) { a.ptr(b + 4); a.ptr(b); a.ptr(b + 2) }, name: func(a *asm, n, b, t int) { a.ptr(b + 2) }},
 		{id: "blob-rdata-mid", blob: func(a *asm, n, b, t int) { a.raw([]byte{0xff, 0xff, 3, 'w', 'w', 'w', 0}) }, name: func(a *asm, n, b, t int) { a.ptr(b + 2) }},
 	}
 	for _, l := range []int{1, 3, 63, 64, 191} {
